@@ -732,3 +732,55 @@ class Tree_sources_setter(Contract):
         j = z3.Int(cx._name("sj"))
         return [("sources_installed", z3.BoolVal(s.fields["_sources"] is new)),
                 ("every_source_points_to_receiver", ForAll([j], Implies(And(j >= 0, j < n), parents_array(new)[j] == s.ident)))]
+
+
+# ------------------------------------------------------------------------------------------------ __deepcopy__
+
+@register
+class Tree_deepcopy_dunder(Contract):
+    """a copy is a NEW node with the receiver's symbol, parties and read-only flag, it carries no cached hash unless the
+    children were copied along (its hash is computed from what it actually contains), it is registered in the memo,
+    and nothing of the receiver (or of any other pre-existing tree) is written."""
+    target = f"{REL}:DerivationTree.__deepcopy__"
+    properties = ("C10",)
+    float_mode = "real"
+    cases = ("all", "no_children", "no_params", "no_parent", "memo_none")
+
+    def inputs(self, cx, case):
+        setup(cx)
+        cx.ghost["inline_ok"] |= {f"{REL}:DerivationTree.__init__", f"{REL}:DerivationTree.sources@setter", f"{REL}:DerivationTree.read_only"}
+        s = node(cx, "self", "child")
+        memo = cx.int_dict("memo") if case != "memo_none" else None
+        if memo is not None:
+            memo.base = lambda key: plain_tree(cx, "memoised", fresh=False)
+        cx.ghost["memo0"] = memo
+        return {"self": s, "memo": memo, "copy_children": case != "no_children", "copy_params": case != "no_params", "copy_parent": case != "no_parent"}
+
+    # call-site direction (recursion through copy.deepcopy)
+    def fresh_result(self, cx, a):
+        src = a["self"]
+        t = plain_tree(cx, "copy", fresh=True, symbol_obj=src.fields.get("_symbol") if isinstance(src, SObj) else None)
+        cx.ghost.setdefault("deepcopies", []).append((src, t))
+        return t
+
+    def ensures(self, cx, a, r):
+        if cx.ghost.get("call_site"):
+            return []
+        s = a["self"]
+        if not isinstance(r, SObj):
+            from pyvc.values import Unsupported
+            raise Unsupported("__deepcopy__ does not return a tree object the contract can read")
+        if not r.fresh:
+            # the memo branch: the registered copy is handed back
+            return [("a_memoised_copy_is_returned_only_from_the_memo", z3.BoolVal(cx.ghost["memo0"] is not None))]
+        bad = [(o, f) for o, f in non_fresh_writes(cx) if o is not a["memo"]]
+        return [
+            ("result_is_a_new_node", z3.BoolVal(r is not s)),
+            # the hash covers symbol, parties and the children's hashes: a cached value may only be carried over together with the children
+            ("copy_carries_no_stale_cached_hash", z3.BoolVal(r.fields.get("hash_cache") is None
+                                                             or (a["copy_children"] is True and r.fields.get("hash_cache") is s.fields["hash_cache"]))),
+            ("copy_has_the_receivers_symbol_parties_and_flag",
+             z3.BoolVal(r.fields.get("_symbol") is s.fields["_symbol"] and r.fields.get("_sender") is s.fields["_sender"]
+                        and r.fields.get("_recipient") is s.fields["_recipient"] and r.fields.get("read_only") is s.fields["read_only"])),
+            ("receiver_and_other_trees_not_written", z3.BoolVal(not bad)),
+        ]
